@@ -575,7 +575,7 @@ func (f *frame) checkNil(p Val, what string) {
 	if !ok || t.T.K != KRef {
 		return
 	}
-	if strings.HasPrefix(t.S, "ref!") {
+	if f.u.nonNil[t.S] {
 		return // fresh allocation
 	}
 	f.u.oblige(f.key, "safe.nil", "", f.curReach, Term{"(not (= " + t.S + " 0))", sBool}, f.key+" nil dereference ("+what+")", "")
